@@ -873,3 +873,162 @@ def _gen_comm(method):
 
 _gen_comm('allreduce')
 _gen_comm('broadcast')
+
+
+@gen('kfac.assignment:KAISAAssignment.greedy_assignment')
+def _gen_greedy(rng, model):
+    from kfac.assignment import KAISAAssignment
+    world = rng.choice([1, 2, 3, 4, 6, 8, 12])
+    ranks = list(range(world))
+    style = rng.random()
+    if style < 0.6:          # a partition into equal groups (what KAISA passes)
+        divs = [d for d in range(1, world + 1) if world % d == 0]
+        g = rng.choice(divs)
+        rng.shuffle(ranks) if rng.random() < 0.3 else None
+        groups = [ranks[i * (world // g):(i + 1) * (world // g)] for i in range(g)]
+    else:                    # arbitrary disjoint groups
+        rng.shuffle(ranks)
+        k = rng.randint(1, world)
+        cuts = sorted(rng.sample(range(1, world), k - 1)) if world > 1 and k > 1 else []
+        groups = [ranks[a:b] for a, b in zip([0] + cuts, cuts + [world])]
+    nl = rng.choice([0, 1, 2, 3, 5, 8])
+    costs = rng.choice([[1.0], [1.0, 2.0, 3.0], None])
+    work = {}
+    for i in range(nl):
+        fs = {}
+        for f in rng.choice([['A', 'G'], ['A', 'G'], ['A'], ['A', 'G', 'B']]):
+            fs[f] = rng.choice(costs) if costs else round(rng.uniform(0, 10), rng.choice([0, 1, 3]))
+        work[f'layer{i}'] = fs
+    colocate = rng.random() < 0.5
+    return Case(KAISAAssignment.greedy_assignment,
+                {'work': work, 'worker_groups': groups, 'world_size': world, 'colocate_factors': colocate},
+                [work, groups, world, colocate], {})
+
+
+# ----------------------------------------------------------------------------- registration (C16)
+def _rand_tree(rng, depth=0):
+    """Random module tree: plain and subclassed Linear / Conv2d leaves, unsupported leaves, shared instances,
+    frozen parameters, bias on/off."""
+    import torch
+
+    class MyLinear(torch.nn.Linear):
+        pass
+
+    class TinyConv(torch.nn.Conv2d):
+        pass
+    pool = []
+
+    def leaf():
+        k = rng.random()
+        if pool and k < 0.15:
+            return rng.choice(pool)                       # shared instance
+        if k < 0.45:
+            m = rng.choice([torch.nn.Linear, MyLinear])(rng.randint(1, 4), rng.randint(1, 4), bias=rng.random() < 0.7)
+        elif k < 0.7:
+            m = rng.choice([torch.nn.Conv2d, TinyConv])(rng.randint(1, 3), rng.randint(1, 3), rng.choice([1, 2, 3]), bias=rng.random() < 0.7)
+        elif k < 0.8:
+            m = torch.nn.MultiheadAttention(4, 2)         # holds a Linear subclass (out_proj) below it
+            return m
+        else:
+            m = rng.choice([torch.nn.ReLU(), torch.nn.BatchNorm1d(3), torch.nn.Embedding(5, 3), torch.nn.LayerNorm(3)])
+        if rng.random() < 0.2:
+            for p in list(m.parameters())[: rng.choice([1, 2])]:
+                p.requires_grad_(False)
+        pool.append(m)
+        return m
+
+    def node(d):
+        if d >= 2 or rng.random() < 0.3:
+            return leaf()
+        names = rng.sample(['fc1', 'fc2', 'conv', 'block', 'head', 'embed', 'layer', '0', '1', '2', 'fc10'], rng.randint(1, 4))
+        return torch.nn.ModuleDict({n: node(d + 1) for n in names}) if rng.random() < 0.5 else \
+            torch.nn.Sequential(*[node(d + 1) for _ in names])
+    root = node(0)
+    if not list(root.children()):
+        root = torch.nn.Sequential(root)
+    return root
+
+
+_PATTERNS = ['fc1', 'fc1$', '^fc1$', r'\.2$', '^0', 'Linear', '^Linear$', '^Conv', 'conv', 'Conv2d$', 'block\\.fc', 'head', 'My', 'embed', '1']
+
+
+@gen('kfac.layers.register:register_modules')
+def _gen_register(rng, model):
+    from kfac.layers.register import register_modules
+    from kfac.layers.eigen import KFACEigenLayer
+    from kfac.layers.inverse import KFACInverseLayer
+    from kfac.distributed import TorchDistributedCommunicator
+    from kfac.enums import AllreduceMethod
+    root = _rand_tree(rng)
+    skip = rng.sample(_PATTERNS, rng.choice([0, 0, 1, 2, 3]))
+    lt = rng.choice([KFACEigenLayer, KFACInverseLayer])
+    kw = dict(allreduce_method=AllreduceMethod.ALLREDUCE, tdc=TorchDistributedCommunicator())
+    return Case(register_modules, {'model': root, 'kfac_layer_type': lt, 'skip_layers': skip}, [root, lt, skip], kw,
+                note=f'skip={skip}')
+
+
+@gen('kfac.layers.register:any_match')
+def _gen_any_match(rng, model):
+    from kfac.layers.register import any_match
+    q = rng.choice(['fc1', 'block.fc1', 'fc10', 'block.2', 'Linear', 'MyLinear', 'Conv2d', '0', 'head.fc2', ''])
+    ps = rng.sample(_PATTERNS, rng.choice([0, 1, 2, 4]))
+    return Case(any_match, {'query': q, 'patterns': ps}, [q, ps], {})
+
+
+def _one_module_gen(fname):
+    @gen(f'kfac.layers.register:{fname}')
+    def g(rng, model):
+        from kfac.layers import register
+        root = _rand_tree(rng)
+        m = rng.choice([m for _, m in root.named_modules()])
+        return Case(getattr(register, fname), {'module': m}, [m], {})
+    return g
+
+
+_one_module_gen('requires_grad')
+_one_module_gen('get_module_helper')
+
+
+@gen('kfac.layers.register:get_flattened_modules')
+def _gen_flat(rng, model):
+    from kfac.layers.register import get_flattened_modules
+    root = _rand_tree(rng)
+    return Case(get_flattened_modules, {'root': root}, [root], {})
+
+
+# ----------------------------------------------------------------------------- GPT-NeoX (DeepSpeed stub)
+def _deepspeed_stub():
+    import os
+    import sys
+    p = os.path.join(os.path.dirname(os.path.abspath(__file__)), 'stubs')
+    if p not in sys.path:
+        sys.path.insert(0, p)
+
+
+@gen('kfac.gpt_neox.assignment:GPTNeoXAssignment.__init__')
+def _gen_neox_assignment(rng, model):
+    _deepspeed_stub()
+    from deepspeed.runtime.pipe.topology import PipeModelDataParallelTopology
+    from kfac.gpt_neox.assignment import GPTNeoXAssignment
+    from harness.specfuncs_rt import _FakeGroup
+    import torch.distributed as dist
+    pp, dp, mp = rng.choice([1, 1, 2, 3]), rng.choice([1, 2, 2, 3, 4]), rng.choice([1, 1, 2, 3])
+    topo = PipeModelDataParallelTopology(num_pp=pp, num_mp=mp, num_dp=dp)
+    W = topo.world_size()
+    r = rng.randrange(W)
+    work = {}
+    for i in range(rng.choice([0, 1, 2, 4, 7])):
+        work[f'layer{i}'] = {'A': rng.choice([1.0, 2.0, round(rng.uniform(0, 9), 1)]), 'G': rng.choice([1.0, 3.0, round(rng.uniform(0, 9), 1)])}
+    dpg = _FakeGroup(next(l for l in topo.get_axis_comm_lists('data') if r in l))
+    mpg = _FakeGroup(next(l for l in topo.get_axis_comm_lists('model') if r in l))
+    obj = GPTNeoXAssignment.__new__(GPTNeoXAssignment)
+    orig = dist.new_group
+    dist.new_group = lambda ranks=None, *a, **k: _FakeGroup(ranks)
+
+    def call(self, work, **kw):
+        try:
+            return GPTNeoXAssignment.__init__(self, work, **kw)
+        finally:
+            dist.new_group = orig
+    kw = dict(local_rank=r, topology=topo, data_parallel_group=dpg, model_parallel_group=mpg)
+    return Case(call, dict(self=obj, work=work, **kw), [obj, work], kw, note=f'pp={pp} dp={dp} mp={mp} rank={r}')
